@@ -96,6 +96,19 @@ class FieldFn:
                         env[tgt[1][1]] = ('(padTo %s %s)' % (arr[0], src[0]), 'bytes')
                         continue
                 raise Untranslatable('copy_from_slice')
+            elif k == 'if' and not last and s[3] is None and len(s[2]) == 1 and s[2][0][0] in ('return', 'expr'):
+                # `if c { return X; }` followed by the rest of the block
+                c = self.ev(s[1], env)
+                inner = s[2][0]
+                if c[1] != 'bool' or (inner[0] == 'expr' and not (isinstance(inner[1], tuple) and inner[1][0] == 'return')):
+                    raise Untranslatable('early exit')
+                a = self.ev(inner[1] if inner[0] == 'return' else inner[1][1], env)
+                b = self.block(stmts[idx + 1:], env)
+                if a[1] != b[1]:
+                    raise Untranslatable('branches of different kinds')
+                return ('(if %s then %s else %s)' % (c[0], a[0], b[0]), a[1])
+            elif k == 'return' and last:
+                return self.ev(s[1], env)
             elif k == 'if' and last and s[3] is not None:
                 c = self.ev(s[1], env)
                 if c[1] != 'bool':
@@ -141,6 +154,11 @@ class FieldFn:
             return ('F.n8', 'zeros')
         if k == 'un' and e[1] in ('&', '*'):
             return self.ev(e[2], env)
+        if k == 'un' and e[1] == '!':
+            v = self.ev(e[2], env)
+            if v[1] == 'bool':
+                return ('(!%s)' % v[0], 'bool')
+            raise Untranslatable('! on %s' % v[1])
         if k == 'paren':
             return self.ev(e[1], env)
         if k == 'bin':
@@ -155,6 +173,8 @@ class FieldFn:
         if k == 'call' and e[1][0] == 'path':
             f = e[1][1]
             args = [self.ev(a, env) for a in e[2]]
+            if self.selfpath(f) == 'to_bytes_le' and len(args) == 1 and args[0][1] == 'fe':
+                return ('(F.toBytesLe %s)' % args[0][0], 'bytes')
             if self.selfpath(f) == 'from_raw_bytes' and len(args) == 1 and args[0][1] == 'bytes':
                 return ('(F.fromRawBytes %s)' % args[0][0], 'fe')
             if f == 'Ok' and len(args) == 1 and args[0][1] == 'fe':
